@@ -6,13 +6,15 @@ REPO=${VP_RUN_REPO:-}
 [ -n "$REPO" ] && [ "$REPO" != "/repo" ] || { echo "needs VP_RUN_REPO (vp run --with-repo)"; exit 2; }
 export VERIF_REPO=$REPO
 cd "$(dirname "$0")/.."
-for d in seeded/C*/; do
+# REGRESS_LIST: directories to run, in order (default: all)
+for d in ${REGRESS_LIST:-seeded/C*/}; do
   name=$(basename $d); c=${name%%-*}
   (cd $REPO && git apply --unsafe-paths $OLDPWD/$d/patch.diff 2>/dev/null) || { echo "REGRESS $name APPLY-FAILED"; continue; }
   out=$(timeout 2400 bin/check $c 2>&1); rc=$?
   echo "REGRESS $name $c rc=$rc violations=$(echo "$out" | grep -c '^VIOLATION') $(echo "$out" | grep '^\[violation\]' | sed -E 's/^\[violation\] ([^:]*):.*/\1/' | head -2 | tr '\n' ' ')"
   (cd $REPO && git checkout -- . 2>/dev/null)
 done
+[ -n "${REGRESS_LIST:-}" ] && { echo REGRESS-DONE; exit 0; }
 out=$(cd $REPO && git apply --unsafe-paths $OLDPWD/seeded/REFACTOR-1/patch.diff && cd - >/dev/null && for c in C01 C02 C03 C04 C06 C07 C14; do timeout 2400 bin/check $c >/dev/null 2>&1; echo -n "$c=$? "; done; cd $REPO && git checkout -- .)
 echo "REGRESS REFACTOR-1 $out"
 out=$(cd $REPO && git apply --unsafe-paths $OLDPWD/seeded/REFACTOR-2/patch.diff && cd - >/dev/null && for c in C01 C02 C03 C04 C05 C06 C07 C08 C09 C10 C12 C13 C14 C15 C17 C18; do timeout 2400 bin/check $c >/dev/null 2>&1; echo -n "$c=$? "; done; cd $REPO && git checkout -- .)
